@@ -188,6 +188,19 @@ func Gen(r *hx.Rand, lim limits, malformed bool) Case {
 		for i := 0; i < nr; i++ {
 			pr.Replies = append(pr.Replies, genReply(r, n, malformed))
 		}
+		if r.Chance(1, 10) {
+			// a processor that keeps returning nothing for (part of) what it is given:
+			// the retry chain either converges, stalls (maxRetryStall) or hits the attempt cap
+			pat := pick(r, [][]Kind{{{K: "nil"}}, {{K: "same"}, {K: "nil"}}, {{K: "nil"}, {K: "mod"}}, {{K: "filter"}, {K: "nil"}, {K: "nil"}}})
+			k := r.Range(2, 7)
+			pr.Replies = pr.Replies[:0]
+			if r.Bool() {
+				pr.Replies = append(pr.Replies, Reply{Exact: true, Kinds: []Kind{{K: "same"}}, Short: r.Range(1, 2)})
+			}
+			for i := 0; i < k; i++ {
+				pr.Replies = append(pr.Replies, Reply{Exact: true, Kinds: pat})
+			}
+		}
 		c.Procs = append(c.Procs, pr)
 	}
 	c.Dest = genDest(r, n, malformed, false)
